@@ -1781,6 +1781,13 @@ class Norm:
                 eta = self._eta(e["path"], e)
                 if eta is not None:
                     return eta
+            if str(e.get("dk", "")).startswith("Const") and self.program is not None and str(e.get("path", "")).startswith(LOCAL_CRATES):
+                # a repo-local constant is its value (naming a literal does not change a term)
+                cb = self.program.body(e["path"])
+                if cb is not None and "body" in cb and e["path"] not in self._stack:
+                    ct = Norm(cb, program=self.program, keep=self.keep, _stack=self._stack).term(cb["body"])
+                    if len(_show(ct)) <= 400 and not any(x[0] in ("param", "cparam") for x in subterms(ct)):
+                        return ct
             return ("def", cshort(e.get("path", "?")))
         if k == "Lit":
             return ("lit", e.get("v"))
